@@ -1,0 +1,305 @@
+// Copyright 2025 SCION Association
+//
+// Licensed under the Apache License, Version 2.0 (the "License");
+// you may not use this file except in compliance with the License.
+// You may obtain a copy of the License at
+//
+//   http://www.apache.org/licenses/LICENSE-2.0
+//
+// Unless required by applicable law or agreed to in writing, software
+// distributed under the License is distributed on an "AS IS" BASIS,
+// WITHOUT WARRANTIES OR CONDITIONS OF ANY KIND, either express or implied.
+// See the License for the specific language governing permissions and
+// limitations under the License.
+
+//go:build verif
+
+// Exports for the model-based verification harness (an external Go module built with -tags verif).
+// Nothing here changes the behaviour of the router; it only gives access to the real, unexported
+// data plane: configuration in the production order (control.ConfigDataplane), the real udpip
+// links on top of an in-memory connection opener, the fast-path and slow-path packet processors.
+// The harness must blank-import router/underlayproviders/udpip (registers the "udpip" provider).
+
+package router
+
+import (
+	"context"
+	"net"
+	"net/netip"
+	"sort"
+	"unsafe"
+
+	"github.com/scionproto/scion/pkg/addr"
+	"github.com/scionproto/scion/pkg/private/ptr"
+	"github.com/scionproto/scion/pkg/slayers"
+	"github.com/scionproto/scion/private/topology"
+	underlayconn "github.com/scionproto/scion/private/underlay/conn"
+	"github.com/scionproto/scion/router/bfd"
+	"github.com/scionproto/scion/router/control"
+)
+
+// VerifIface describes one inter-AS interface of the AS as seen by one router.
+type VerifIface struct {
+	IfID     uint16
+	LinkTo   topology.LinkType // type of the link as seen from the local AS
+	Neighbor addr.IA           // AS at the far end
+	Owned    bool              // true: this router owns the interface; false: a sibling does
+	Local    string            // owned: local underlay "ip:port" of the link (ignored otherwise)
+	Remote   string            // owned: underlay "ip:port" of the neighbour's router;
+	// not owned: *internal* "ip:port" of the sibling router that owns the interface.
+	BFD bool // run a real bfd.Session on the link (sibling links are de-duplicated by Remote)
+}
+
+// VerifSvc is one service instance.
+type VerifSvc struct {
+	SVC  addr.SVC
+	Addr netip.AddrPort
+}
+
+// VerifConfig describes one border router.
+type VerifConfig struct {
+	IA           addr.IA
+	Key          []byte // forwarding key as handed to SetKey, i.e. control.DeriveHFMacKey(master0)
+	InternalAddr string // "ip:port" of the router in the AS-internal network
+	Ifaces       []VerifIface
+	Svc          []VerifSvc
+	PortStart    uint16 // dispatched port range (SetPortRange is called last, as in production)
+	PortEnd      uint16
+	SCMPAuth     bool        // ExperimentalSCMPAuthentication
+	ConnOpener   any         // udpip.ConnOpener; nil: VerifConnOpener{ReuseLocal: !SiblingDetached}
+	BFDConfig    control.BFD // parameters for links with BFD (Disable is overwritten per link)
+	BatchSize    int         // RunConfig.BatchSize (queue sizes); 0 means 8
+	// SiblingDetached selects the non-Linux flavour of sibling links (detachedLink sharing the
+	// internal connection) instead of connectedLink. Only used when ConnOpener is nil.
+	SiblingDetached bool
+}
+
+// VerifConnOpener is an in-memory udpip.ConnOpener: no sockets. Reads block until Close, writes
+// are counted and dropped.
+type VerifConnOpener struct{ ReuseLocal bool }
+
+type verifConn struct {
+	closed chan struct{}
+	Writes int
+}
+
+func (o VerifConnOpener) Open(l, r netip.AddrPort, c *underlayconn.Config) (BatchConn, error) {
+	return &verifConn{closed: make(chan struct{})}, nil
+}
+func (o VerifConnOpener) UDPCanReuseLocal() bool { return o.ReuseLocal }
+
+func (c *verifConn) ReadBatch(underlayconn.Messages) (int, error) {
+	<-c.closed
+	return 0, net.ErrClosed
+}
+func (c *verifConn) WriteBatch(m underlayconn.Messages, _ int) (int, error) {
+	c.Writes += len(m)
+	return len(m), nil
+}
+func (c *verifConn) Close() error { close(c.closed); return nil }
+
+// VerifDisposition mirrors the unexported disposition.
+type VerifDisposition int
+
+const (
+	VerifDiscard  = VerifDisposition(pDiscard)
+	VerifForward  = VerifDisposition(pForward)
+	VerifSlowPath = VerifDisposition(pSlowPath)
+	VerifDone     = VerifDisposition(pDone)
+)
+
+func (d VerifDisposition) String() string {
+	return [...]string{"discard", "forward", "slow", "done"}[d]
+}
+
+// VerifResult is what the processing left in the packet.
+type VerifResult struct {
+	Disp   VerifDisposition
+	Egress uint16 // Packet.egress (0: internal link, i.e. local delivery, or not set)
+	// Link the packet would be sent on: fast path forward: interfaces[Egress] (nil = dropped by
+	// runProcessor as "egress invalid"); slow path without error: the ingress link.
+	OutLink Link
+	Raw     []byte       // Packet.RawPacket after processing (aliases the packet buffer!)
+	Dst     *net.UDPAddr // underlay destination on OutLink (see VerifDP.Dst); nil if OutLink is nil
+	// Slow-path request left by the fast path (valid when Disp == VerifSlowPath).
+	SlowType int8 // >= 0: SCMP type; -1 ingress router alert; -2 egress router alert
+	SlowCode slayers.SCMPCode
+	SlowPtr  uint16
+	Traffic  string // trafficType.String()
+}
+
+// VerifDP is one real data plane plus one fast-path and one slow-path processor (re-used across
+// packets exactly like the processor goroutines re-use theirs). Not safe for concurrent use.
+type VerifDP struct {
+	D      *dataPlane
+	fast   *scionPacketProcessor
+	slow   *slowPathPacketProcessor
+	remote map[Link]*net.UDPAddr // configured far end of connected/sibling links
+}
+
+// VerifNewDP configures a data plane in the order of control.ConfigDataplane: IA, key, internal
+// interface, external interfaces by ascending id (AddNeighborIA then AddExternalInterface or
+// AddNextHop), services, port range. The data plane is marked running; no goroutine is started.
+func VerifNewDP(cfg VerifConfig) (*VerifDP, error) {
+	if cfg.BatchSize == 0 {
+		cfg.BatchSize = 8
+	}
+	d := newDataPlane(RunConfig{NumProcessors: 1, NumSlowPathProcessors: 1,
+		BatchSize: cfg.BatchSize}, cfg.SCMPAuth)
+	if cfg.ConnOpener == nil {
+		cfg.ConnOpener = VerifConnOpener{ReuseLocal: !cfg.SiblingDetached}
+	}
+	d.underlays["udpip"].SetConnOpener(cfg.ConnOpener)
+	if err := d.SetIA(cfg.IA); err != nil {
+		return nil, err
+	}
+	if err := d.SetKey(cfg.Key); err != nil {
+		return nil, err
+	}
+	intAddr, err := netip.ParseAddrPort(cfg.InternalAddr)
+	if err != nil {
+		return nil, err
+	}
+	intHost := addr.HostIP(intAddr.Addr())
+	if err := d.AddInternalInterface(intHost, "udpip", cfg.InternalAddr); err != nil {
+		return nil, err
+	}
+	v := &VerifDP{D: d, remote: map[Link]*net.UDPAddr{}}
+	ifs := append([]VerifIface(nil), cfg.Ifaces...)
+	sort.Slice(ifs, func(i, j int) bool { return ifs[i].IfID < ifs[j].IfID })
+	for _, i := range ifs {
+		rem, err := netip.ParseAddrPort(i.Remote)
+		if err != nil {
+			return nil, err
+		}
+		li := control.LinkInfo{
+			Provider: "udpip",
+			Local:    control.LinkEnd{IA: cfg.IA, Addr: i.Local},
+			Remote:   control.LinkEnd{IA: i.Neighbor, Addr: i.Remote},
+			LinkTo:   i.LinkTo,
+			BFD:      cfg.BFDConfig,
+		}
+		li.BFD.Disable = ptr.To(!i.BFD)
+		if err := d.AddNeighborIA(i.IfID, i.Neighbor); err != nil {
+			return nil, err
+		}
+		if i.Owned {
+			loc, err := netip.ParseAddrPort(i.Local)
+			if err != nil {
+				return nil, err
+			}
+			err = d.AddExternalInterface(i.IfID, li, addr.HostIP(loc.Addr()),
+				addr.HostIP(rem.Addr()))
+			if err != nil {
+				return nil, err
+			}
+		} else {
+			li.Local.Addr = cfg.InternalAddr
+			if err := d.AddNextHop(i.IfID, li, intHost, addr.HostIP(rem.Addr())); err != nil {
+				return nil, err
+			}
+		}
+		v.remote[d.interfaces[i.IfID]] = net.UDPAddrFromAddrPort(rem)
+	}
+	for _, s := range cfg.Svc {
+		if err := d.AddSvc(s.SVC, addr.HostIP(s.Addr.Addr()), s.Addr.Port()); err != nil {
+			return nil, err
+		}
+	}
+	d.SetPortRange(cfg.PortStart, cfg.PortEnd)
+	for _, u := range d.underlays { // as initPacketPool does
+		d.underlayHeadroom = max(d.underlayHeadroom, u.Headroom())
+	}
+	d.setRunning()
+	v.fast, v.slow = newPacketProcessor(d), newSlowPathProcessor(d)
+	return v, nil
+}
+
+// Link returns the real link object for an interface id: 0 the internalLink, an owned id its
+// external connectedLink, a non-owned id the sibling link towards the owning router; nil if
+// unknown.
+func (v *VerifDP) Link(ifID uint16) Link { return v.D.interfaces[ifID] }
+
+// LinkType and NeighborIA return what the data plane holds for the interface.
+func (v *VerifDP) LinkType(ifID uint16) topology.LinkType { return v.D.linkTypes[ifID] }
+func (v *VerifDP) NeighborIA(ifID uint16) addr.IA         { return v.D.neighborIAs[ifID] }
+
+// NewPacket builds a packet as the receiver of Link(via) would: a 9000-byte buffer with the
+// pool's headroom, RawPacket = copy of raw, Link = the real link; on the internal link RemoteAddr
+// is the source underlay address src (external and sibling links do not record it).
+func (v *VerifDP) NewPacket(raw []byte, via uint16, src *net.UDPAddr) *Packet {
+	p := (&Packet{}).init(new([bufSize]byte))
+	p.reset(max(v.D.underlayHeadroom, minHeadroom))
+	p.RawPacket = p.RawPacket[:len(raw)]
+	copy(p.RawPacket, raw)
+	p.Link = v.D.interfaces[via]
+	if p.Link != nil && p.Link.Scope() == Internal && src != nil {
+		p.RemoteAddr = unsafe.Pointer(src)
+	}
+	return p
+}
+
+// Dst is the underlay destination a packet would get when sent on l: the resolved (or, for a
+// reply, the recorded source) address of the packet on the internal link, else the link's far end.
+func (v *VerifDP) Dst(p *Packet, l Link) *net.UDPAddr {
+	if l == nil {
+		return nil
+	}
+	if l.Scope() == Internal {
+		return (*net.UDPAddr)(p.RemoteAddr)
+	}
+	return v.remote[l]
+}
+
+func (v *VerifDP) result(p *Packet, disp disposition, out Link) VerifResult {
+	s := p.slowPathRequest
+	return VerifResult{Disp: VerifDisposition(disp), Egress: p.egress, OutLink: out,
+		Raw: p.RawPacket, Dst: v.Dst(p, out), SlowType: int8(s.spType), SlowCode: s.code,
+		SlowPtr: s.pointer, Traffic: p.trafficType.String()}
+}
+
+// Process runs the fast path (scionPacketProcessor.processPkt) on p, in place.
+func (v *VerifDP) Process(p *Packet) VerifResult {
+	disp := v.fast.processPkt(p)
+	var out Link
+	if disp == pForward {
+		out = v.D.interfaces[p.egress]
+	}
+	return v.result(p, disp, out)
+}
+
+// ProcessSlow runs slowPathPacketProcessor.processPacket on a packet for which Process returned
+// VerifSlowPath. As in runSlowPathProcessor: on error the packet is dropped (OutLink nil);
+// otherwise whatever is in p.RawPacket is sent back on the ingress link p.Link.
+func (v *VerifDP) ProcessSlow(p *Packet) (VerifResult, error) {
+	if err := v.slow.processPacket(p); err != nil {
+		return v.result(p, pDiscard, nil), err
+	}
+	return v.result(p, pForward, p.Link), nil
+}
+
+// StartBFD allocates the packet pool (bfdSend needs it) and runs the bfd.Session of every link
+// that has one; the returned function closes the sessions. Control messages are fed with
+// Link(id).BFDSession().ReceiveMessage(msg) or as BFD packets through Process; observe Link.IsUp().
+// Packets the sessions send pile up in the links' queues (size BatchSize) and are then recycled.
+func (v *VerifDP) StartBFD(ctx context.Context) (stop func()) {
+	v.D.initPacketPool(v.D.RunConfig.BatchSize)
+	var sessions []*bfd.Session
+	seen := map[Link]bool{}
+	for _, l := range v.D.interfaces {
+		if l == nil || seen[l] || l.BFDSession() == nil {
+			continue
+		}
+		seen[l] = true
+		sessions = append(sessions, l.BFDSession())
+		go func() { _ = l.BFDSession().Run(ctx) }()
+	}
+	return func() {
+		for _, s := range sessions {
+			_ = s.Close()
+		}
+	}
+}
+
+// PoolSize returns the number of packets currently in the pool (0 before StartBFD).
+func (v *VerifDP) PoolSize() int { return len(v.D.packetPool.pool) }
